@@ -131,6 +131,17 @@ CHECKS = {
              "that an in-process assembly yields; 5% of the runs are cross-checked against a real subprocess.",
         note="Trusted: vf/ref/codecs.py (BK-0010 tape structure; turbo format by its documented constants), the path rules stated in the property.",
         design="4/C13"),
+    "C17": dict(
+        category="fault_enumeration",
+        technique="fault catalogue enumeration x Hypothesis placement and prefix generation; positions recomputed by the harness",
+        text="88 catalogued fault kinds (73 error/critical, 15 warning), each with the token at which pdpy11 documents the diagnostic, are "
+             "planted at every placement class (main first/middle/last, inside .repeat, in an included file, in the 2nd and 3rd linked "
+             "file) - once exhaustively with fixed surroundings and CLI renderings, then with Hypothesis-drawn surroundings (tabs, "
+             "non-ASCII comments and strings, labels and tabs on the culprit's line). Every diagnostic of every run is checked for "
+             "file/text/range consistency; the planted one must start at the culprit's offset, render as the line:column the harness "
+             "computes (tab = 4), and show up at that position in the CLI's bare and graphical output.",
+        note="Trusted: the anchor table in vf/mutate.py (calibrated against the repaired tree; it encodes which token each diagnostic documents).",
+        design="4/C17"),
     "C19": dict(
         category="exploration",
         technique="Hypothesis multi-file programs run through the CLI with --lst; the listing is parsed and compared with the reference assembler's symbol tables and with the image",
